@@ -5,6 +5,8 @@
 //! * `F32-stale-page`  the list is recomputed on every query but the page number is only touched by
 //!   keys: an option / layout / dictionary call while the list is open (or a page number inherited from
 //!   such a state) leaves the current page ≥ the page count, or an open list with no candidates;
+//! * `F40-first-after-single-word`  chewing_cand_list_first on the simple engine's single-word list made
+//!   in front of a non-syllable symbol: the range swallows that symbol.
 //! Everything else is reported as `new`.
 use crate::step::*;
 use chewing::editor::keyboard::KeyCode;
@@ -29,6 +31,7 @@ struct Stats {
     complete_with_alt: u64,
     complete_multi_syllable: u64,
     longest_checked: u64,
+    non_syllable_ranges: u64,
     choices_in_range: [u64; 3],
     choices_in_range_page_gt0: u64,
     choices_submenu_descent: u64,
@@ -232,7 +235,18 @@ fn check_view(out: &mut Out, st: &Step, info: &SelInfo, v: &CandView, pre_sel: &
     // completeness of a phrase list against the dictionaries themselves
     if let Some(e) = &v.expect {
         if !e.all_syllables || e.range_len == 0 {
-            fail(out, "new", &format!("the highlighted range {}..{} is empty or contains a non-syllable symbol ({} leading syllables)", info.begin, info.end, e.key.len()), st);
+            // F40: a rearward selector whose remembered cursor `orig` sits ON a non-syllable symbol (the
+            // simple engine's single-word selector remembers the cursor AFTER the word) was re-initialised
+            // from `orig` (chewing_cand_list_first): the range is begin..orig+1, syllables up to `orig`
+            let syms = symbols(st.post);
+            let f40 = e.range_len > 0
+                && !info.forward
+                && info.end == info.orig + 1
+                && info.begin < info.orig
+                && syms.get(info.orig).is_some_and(|t| t.starts_with('c'))
+                && (info.begin..info.orig).all(|i| syms.get(i).is_some_and(|t| t.starts_with('s')));
+            STATS.with(|s| s.borrow_mut().non_syllable_ranges += 1);
+            fail(out, if f40 { "F40-first-after-single-word" } else { "new" }, &format!("the highlighted range {}..{} is empty or contains a non-syllable symbol ({} leading syllables)", info.begin, info.end, e.key.len()), st);
             return;
         }
         STATS.with(|s| {
@@ -412,6 +426,7 @@ pub fn finish(out: &mut Out) {
         out.stat("c07_complete_with_alt_syllables", s.complete_with_alt);
         out.stat("c07_complete_multi_syllable", s.complete_multi_syllable);
         out.stat("c07_opened_longest_range_checked", s.longest_checked);
+        out.stat("c07_ranges_with_non_syllable", s.non_syllable_ranges);
         out.stat("c07_choices_phrase", s.choices_in_range[0]);
         out.stat("c07_choices_symbol_table", s.choices_in_range[1]);
         out.stat("c07_choices_special_symbol", s.choices_in_range[2]);
